@@ -358,6 +358,11 @@ func kems(rng *rand.Rand, n int, thorough bool) {
 			bad[rng.Intn(len(bad))] ^= 1 << uint(rng.Intn(8))
 			ss3, err := sch.Decapsulate(sk, bad)
 			emit("kem."+name, "Decapsulate(altered)", [][]byte{seed, es, bad}, ss3, []byte(fmt.Sprint(err)))
+			for _, fill := range []byte{0x00, 0xff, 0x55} { // constant ciphertexts: extreme decompressed coefficients through the (vectorised) NTT
+				cc := bytes.Repeat([]byte{fill}, len(ct))
+				ssc, err := sch.Decapsulate(sk, cc)
+				emit("kem."+name, fmt.Sprintf("Decapsulate(constant %02x)", fill), [][]byte{seed}, ssc, []byte(fmt.Sprint(err)))
+			}
 			pk2, err := sch.UnmarshalBinaryPublicKey(pkb)
 			if err == nil {
 				b2, _ := pk2.MarshalBinary()
